@@ -31,6 +31,8 @@ class ExprMixin:
     def force(self, v: V) -> V:
         if isinstance(v, VDyn) and getattr(self, "pure_mode", 0):
             return v  # element expressions of symbolic comprehensions stay unforked; consumers that need the kind reject VDyn
+        if getattr(self, "pure_mode", 0) and (isinstance(v, VOpt) or (isinstance(v, VRef) and v.nullable)):
+            return v  # no forking while an element expression is evaluated for an arbitrary index (a fork would turn a per-element condition into a path condition)
         if isinstance(v, VOpt):
             if self.branch(v.isnone):
                 return NONE
@@ -831,6 +833,27 @@ class ExprMixin:
         return VDict(out)
 
     def ev_SetComp(self, n, env):
+        if len(n.generators) == 1 and n.generators[0].ifs:
+            g = n.generators[0]
+            it = self.iter_view(self.ev(g.iter, env))
+            if isinstance(it, VSeq):
+                # filtered set comprehension over a symbolic sequence, exactly: { elt(i) | i < len, cond(i) }
+                def body(e2):
+                    conds = [self.truthy(self.ev(c, e2)) for c in g.ifs]
+                    val = self.ev(n.elt, e2)
+                    if isinstance(val, VOpt):
+                        # a None element can never equal a non-None probe: the set of its non-None elements decides every membership test the code makes
+                        conds.append(z3.Not(val.isnone))
+                        val = val.val
+                    elem = self.infer_elem(val)
+                    return (elem, len(conds)), conds + pack(val, elem)
+                i, ((elem, nc), _), terms = self.for_arbitrary_index(it, g.target, env, body, "i!sc")
+                conds, et = terms[:nc], terms[nc:]
+                if len(et) != 1:
+                    raise OutOfSubset("set comprehension with a structured element")
+                x = z3.Const("x!scf", et[0].sort())
+                arr = z3.Lambda([x], z3.Exists([i], z3.And(i >= 0, i < it.length, *conds, et[0] == x)))
+                return VSet(elem, arr)
         l = self.comp_list(n, env, mutable=False)
         if isinstance(l, VList):
             return VPy(obj=("set", l.items))
@@ -897,12 +920,15 @@ class ExprMixin:
         hv0 = self.ghost.get("heap_version")
         nev0 = len(self.events)
         pcn = len(self.pc)
+        ndec = len(self.decisions)
         try:
             self.pc.append(z3.And(i >= 0, i < seq.length))
             self.bind_target(target, self.seq_get_pure(seq, i), e2)
             res = body(e2)
             terms = list(res[1])
             delta = self.pc[pcn + 1:]
+            if len(self.decisions) != ndec:
+                raise OutOfSubset("fork inside the element expression of a comprehension over a symbolic sequence")
         finally:
             del self.pc[pcn:]
             self.pure_mode -= 1
